@@ -48,6 +48,12 @@ func (h *connHandler) Retry(ctx context.Context, token int) (int, error) {
 	return token, nil
 }
 
+func (h *connHandler) RetryNC(ctx context.Context, token int) (int, error) {
+	h.enter("retrync", token)
+	h.env.tr.ev("h.end", token, ctx.Err() != nil)
+	return token, nil
+}
+
 func (h *connHandler) Fail(ctx context.Context, token int) (int, error) {
 	h.enter("fail", token)
 	h.env.tr.ev("h.end", token, ctx.Err() != nil)
@@ -99,6 +105,10 @@ func (h *connHandler) NoteWait(ctx context.Context, token int) {
 func (h *connHandler) Sub(ctx context.Context, token int, n int) (<-chan int, error) {
 	h.env.tr.ev("h.start", token, "sub")
 	h.env.execs.Store(token, h.env.execCount(token)+1)
+	if h.env.watchCtx {
+		// an observer of the handler's context that does not depend on what the producer is doing
+		go func() { <-ctx.Done(); h.env.tr.ev("h.ctxwatch", token) }()
+	}
 	buf := h.env.subBuf
 	ch := make(chan int, buf)
 	hold := h.env.holdOf(token)
@@ -216,6 +226,7 @@ func (h *connHandler) SubWait(ctx context.Context, token int, n int) (<-chan int
 type connClient struct {
 	Echo     func(ctx context.Context, token int) (int, error)
 	Retry    func(ctx context.Context, token int) (int, error) `retry:"true"`
+	RetryNC  func(token int) (int, error)                      `retry:"true"` // retry-tagged, no context parameter
 	Plain    func(ctx context.Context, token int) int
 	Fail     func(ctx context.Context, token int) (int, error)
 	Big      func(ctx context.Context, token int, size int) (string, error)
@@ -252,6 +263,7 @@ type connEnv struct {
 	nextTok    int32
 	subBuf     int
 	prodGate   func(token, i int)
+	watchCtx   bool // Sub handlers report the end of their context on their own (h.ctxwatch)
 	subNoClose bool // Sub producers stop on a cancelled context without closing their channel
 	backoffMin time.Duration
 	srvCancel  context.CancelFunc
@@ -297,14 +309,15 @@ func (e *connEnv) releaseAllHolds() {
 }
 
 type connOpts struct {
-	noReconnect bool
-	errors      bool
-	ping        time.Duration
-	timeout     time.Duration
-	backoffMin  time.Duration
-	backoffMax  time.Duration
-	srvPing     time.Duration
-	clientCtx   context.Context // context handed to the client constructor (nil: Background)
+	noReconnect  bool
+	errors       bool
+	ping         time.Duration
+	timeout      time.Duration
+	backoffMin   time.Duration
+	backoffMax   time.Duration
+	srvPing      time.Duration
+	clientCtx    context.Context // context handed to the client constructor (nil: Background)
+	timeoutFirst bool            // list WithTimeout before WithPingInterval
 }
 
 func newConnEnv(o connOpts) *connEnv {
@@ -324,6 +337,9 @@ func newConnEnv(o connOpts) *connEnv {
 	}
 	e.backoffMin = o.backoffMin
 	copts := []jsonrpc.Option{jsonrpc.WithReconnectBackoff(o.backoffMin, o.backoffMax), jsonrpc.WithPingInterval(o.ping), jsonrpc.WithTimeout(o.timeout)}
+	if o.timeoutFirst {
+		copts[1], copts[2] = copts[2], copts[1]
+	}
 	if o.noReconnect {
 		copts = append(copts, jsonrpc.WithNoReconnect())
 	}
@@ -400,6 +416,16 @@ func (e *connEnv) call(kind string, ctx context.Context, extra ...int) int {
 			v, err = e.cl.Echo(ctx, token)
 		case "retry":
 			v, err = e.cl.Retry(ctx, token)
+		case "retrync":
+			func() {
+				// a panic inside the proxy function belongs to this call: it neither returned a result nor an error
+				defer func() {
+					if p := recover(); p != nil {
+						err = fmt.Errorf("the proxy function panicked: %v", p)
+					}
+				}()
+				v, err = e.cl.RetryNC(token)
+			}()
 		case "plain":
 			v = e.cl.Plain(ctx, token)
 		case "fail":
@@ -527,18 +553,20 @@ func connOracle(r *connRun) string {
 		if strings.HasPrefix(c.Outcome, "other:") {
 			return fmt.Sprintf("call %d failed with an unexpected error: %s", c.Token, c.Outcome)
 		}
-		if c.Kind != "retry" && c.Execs > 1 {
+		if !isRetryKind(c.Kind) && c.Execs > 1 {
 			return fmt.Sprintf("call %d (not retry-tagged) executed its handler %d times", c.Token, c.Execs)
 		}
 		if (c.Outcome == "ok" || c.Outcome == "handler-error") && c.Execs < 1 && c.Kind != "note" {
 			return fmt.Sprintf("call %d got an answer but its handler never ran", c.Token)
 		}
-		if c.Kind == "retry" && c.Outcome == "connerr" && r.Params["heals"] == true {
+		if isRetryKind(c.Kind) && c.Outcome == "connerr" && r.Params["heals"] == true {
 			return fmt.Sprintf("retry-tagged call %d surfaced the connection error although the link healed", c.Token)
 		}
 	}
 	return ""
 }
+
+func isRetryKind(k string) bool { return k == "retry" || k == "retrync" }
 
 func min(a, b int) int {
 	if a < b {
